@@ -19,10 +19,10 @@ EXPLANATION = (
     "ever poisoned); the stores' initial contents are constants of the Known kind. C20.4: every accessor stores Some(..) inside call_once "
     "before returning. C20.1: no unsafe code, no static mut, store fields touched only by the accessor; the global context is taken "
     "mutably only by register_tags. C20.5: compile witnesses - with `multithreaded` Envelope/Assertion/FormatContext: Send + Sync "
-    "type-checks; without it `Envelope: Send` fails with E0277. Does not decide which text a formatting call returns while another thread "
+    "type-checks; without it `Envelope: Send` fails with E0277. C20.6: a value written through a store guard is never computed from the same store's content read under a different acquisition (no copy-out / write-back update). Does not decide which text a formatting call returns while another thread "
     "is inside register_tags (run-time content), nor liveness beyond lock order.")
 TRUSTED = ['std::sync::Mutex / Once semantics', 'rustc Send/Sync checking', 'dcbor and bc-components bodies as compiled (their MIR is analysed for locks, not for panics)']
-FLOORS = {'C20.1': 3, 'C20.2': 3, 'C20.3': 2, 'C20.4': 4, 'C20.5': 1}
+FLOORS = {'C20.1': 3, 'C20.2': 3, 'C20.3': 2, 'C20.4': 4, 'C20.5': 1, 'C20.6': 1}
 
 
 def check(ctx):
@@ -230,6 +230,49 @@ def check(ctx):
                 ctx.ok('C20.4', ctx.site(b), '%s: Some(..) stored inside call_once, which dominates the returned lock' % b.impl_self.split('::')[-1])
             else:
                 ctx.fail('C20.4', ctx.site(b), '%s may hand out a guard over None (store not assigned inside call_once before the lock is returned)' % b.impl_self.split('::')[-1], key='C20.4|' + b.path)
+    # ---------------- C20.6 updates of a store are made under ONE guard: a value written through a guard of store X (assignment
+    # through the guard, or an argument handed to a call that receives the guard's content mutably) is never computed from X's content
+    # read under another acquisition (copy out, release, modify, lock again, write back loses concurrent updates)
+    acc_hashes = {b.hash for b in F.bodies if lock.is_accessor(b)}
+    def acquisitions(t):
+        out = []
+        for x in walk(t):
+            if isinstance(x, tuple) and x and x[0] == 'call' and len(x) > 3:
+                c = CALLEES.get(x[1])
+                if c is not None and c.best_hash in acc_hashes:
+                    out.append((c.best_hash, x[3]))
+        return out
+    nwrites = 0
+    for b in F.bodies:
+        if not any(c is not None and c.best_hash in acc_hashes for bi, c, t in b.calls()):
+            continue
+        tb = TermBuilder(F, b)
+        writes = []     # (block, guard term, [value terms])
+        for bi, bl in enumerate(b.blocks):
+            if bl['cleanup']:
+                continue
+            for si, st in enumerate(bl['stmts']):
+                if st['k'] == 'assign' and st['place']['p'] and st['place']['p'][0] == 'deref':
+                    writes.append((bi, tb.local_term(st['place']['l'], bi, si), [tb.rvalue_term(st['rv'], bi, si)]))
+            t = bl['term']
+            if t and t['k'] == 'call' and t['args']:
+                a0 = t['args'][0]
+                if a0['k'] in ('move', 'copy') and not a0['place']['p'] and b.local_ty(a0['place']['l']).lstrip().startswith('&mut'):
+                    args = tb.call_args(bi)
+                    writes.append((bi, args[0], list(args[1:])))
+        for bi, g, vals in writes:
+            ga = acquisitions(g)
+            if not ga:
+                continue
+            nwrites += 1
+            stale = [(h, s_) for v in vals for (h, s_) in acquisitions(v) if any(h == gh and s_ != gs for gh, gs in ga)]
+            if stale:
+                ctx.fail('C20.6', ctx.site(b, bi), 'the value written through this guard was computed from the same store\'s content read under another acquisition '
+                         '(at bb%s): the read-modify-write is not atomic and concurrent updates are lost' % sorted({s_[1] for h, s_ in stale}), key='C20.6|rmw|' + b.path)
+    if nwrites:
+        ctx.ok('C20.6', '-', '%d writes through store guards, none fed from another acquisition of the same store' % nwrites)
+    elif ctx.config == 'mt':
+        ctx.lost('C20.6', 'positive control: a write through a store guard (register_tags / the store initialisers)')
     # ---------------- C20.5 compile witnesses (type checking only)
     if ctx.config == 'mt':
         witness(ctx, 'pos', expect_ok=True)
